@@ -496,10 +496,12 @@ def predC16 (req obs : List String) : Option Bool :=
     | none => pure (o != ["panic"])
   | _, _ => none
 
-/-- `pipe0`: find's output through `xargs -0`: the arguments delivered, in order -/
+/-- `pipe0`: find's output through `xargs -0`: the arguments delivered, in order;
+    `pipe0i`: through `xargs -0 -I{} CMD {}` — one run per path, the path as the single argument
+    (the same flattened sequence) -/
 def handlePipe (verb : String) (args : List String) : Option String :=
   match verb with
-  | "pipe0" => do
+  | "pipe0" | "pipe0i" => do
     let r ← parseReq args
     match run r.follow r.roots r.args with
     | some res =>
@@ -513,7 +515,7 @@ def handlePipe (verb : String) (args : List String) : Option String :=
 def predC07 (req obs : List String) : Option Bool :=
   match req with
   | "find" :: _ => predFind req obs
-  | "pipe0" :: rest => do
+  | "pipe0" :: rest | "pipe0i" :: rest => do
     let r ← parseReq rest
     match obs with
     | [fst, xst, as] => do
